@@ -90,13 +90,18 @@ RawNames(r) == {r.classes[i].name.src : i \in 1..Len(r.classes)}
 RECURSIVE Ancestors0(_, _)
 Ancestors0(r, n) ==
     LET bs == RangeOf(RawClass(r, n).bases) IN bs \cup UNION {Ancestors0(r, b) : b \in bs}
-\* all properties in declaration order: inherited (in the order of the bases) then own
+\* all properties in declaration order: inherited (in the order of the bases, a property reached along several paths -- a
+\* diamond -- counted once, at its first occurrence) then own
+KeepFirst(names) == SelectSeq(T([i \in 1..Len(names) |-> i]), LAMBDA i : \A j \in 1..(i - 1) : names[j] # names[i])
+PickAt(s, idx) == T([k \in 1..Len(idx) |-> s[idx[k]]])
+DedupProps(ps) == PickAt(ps, KeepFirst(T([i \in 1..Len(ps) |-> ps[i].name.src])))
+DedupDefaults(ds) == PickAt(ds, KeepFirst(T([i \in 1..Len(ds) |-> ds[i].prop])))
 RECURSIVE AllProps0(_, _)
 AllProps0(r, n) ==
-    LET c == RawClass(r, n) IN Flat(T([i \in 1..Len(c.bases) |-> AllProps0(r, c.bases[i])])) \o c.props
+    LET c == RawClass(r, n) IN DedupProps(Flat(T([i \in 1..Len(c.bases) |-> AllProps0(r, c.bases[i])])) \o c.props)
 RECURSIVE AllDefaults0(_, _)
 AllDefaults0(r, n) ==
-    LET c == RawClass(r, n) IN Flat(T([i \in 1..Len(c.bases) |-> AllDefaults0(r, c.bases[i])])) \o c.defaults
+    LET c == RawClass(r, n) IN DedupDefaults(Flat(T([i \in 1..Len(c.bases) |-> AllDefaults0(r, c.bases[i])])) \o c.defaults)
 ConcreteOf0(r, n) == {c \in RawNames(r) : ~RawClass(r, c).abstract /\ (c = n \/ n \in Ancestors0(r, c))}
 
 (* prepared model: the raw one plus, per class, everything derived (computed once) *)
